@@ -146,7 +146,7 @@ def run_check(prop, tier, seed, workdir, args, t0):
 
     # vacuity guard: every boundary region the plan names must have been reached
     missing = [o for o in plan.get("required_obligations", []) if obligations.get(o, 0) == 0]
-    if missing and not violations:
+    if missing and not violations and not vlib.DEATHS:
         # (with violations present, e.g. shards abandoned because the code under test hangs, the
         # violations are what has to be reported)
         raise ToolError("driver obligations never reached: %s" % ", ".join(missing))
@@ -169,6 +169,21 @@ def run_check(prop, tier, seed, workdir, args, t0):
             seen += 1
         if len(violations) > 20:
             print("  ... and %d more rejected runs" % (len(violations) - 20))
+    for d in vlib.DEATHS[:5]:
+        # a driver process died before it could begin a run: the code under test panicked (or aborted) where the
+        # driver calls it outside a logged call; on the unchanged tree this does not happen
+        rc = 1
+        why = ("the driver of family %s (shard %s) died with exit status %s before beginning a run; "
+               "re-run: %s" % (d["family"], d["shard"], d["rc"], d["cmd"]))
+        path = "/dev/null"
+        if not vlib.SCRATCH:
+            os.makedirs(os.path.join(vlib.VERIF, "replays"), exist_ok=True)
+            path = os.path.join(vlib.VERIF, "replays", "%s-died-%s-%s.json" % (prop, d["family"], d["shard"]))
+            with open(path, "w") as f:
+                json.dump({"property": prop, "why": why, "death": d}, f)
+                f.write("\n")
+        print("VIOLATION property=%s replay=%s" % (prop, path))
+        print("  " + why[:500])
 
     if not args.skip_mc:
         coverage = {
@@ -192,7 +207,7 @@ def run_check(prop, tier, seed, workdir, args, t0):
         vlib.write_evidence(prop, tier, seed, coverage, time.time() - t0, len(violations),
                             plan.get("assumptions", []))
     log("%s %s: %d runs, %d events, %d violation(s), %.1fs" % (prop, tier, all_runs, all_events,
-                                                              len(violations), time.time() - t0))
+                                                              len(violations) + len(vlib.DEATHS), time.time() - t0))
     return rc
 
 
